@@ -88,7 +88,7 @@ def run_e2e(ctx, n, tag):
     runs = 0
     for (text, exp), (rc, so, se, refs) in zip(cases, common.pmap(one, list(enumerate(cases)))):
         runs += 1 + len(refs)
-        if rc != 0 or so.strip().endswith("timeout"):
+        if rc != 0 or "timeout" in so.split("\n"):
             continue
         by_row = {}
         for line in so.split("\n"):
